@@ -41,6 +41,10 @@ def c08_scenarios(tier, rng):
                         # management calls
                         for i in range(1, n + 1):
                             hists.append([{"op": "disable", "i": i}, {"op": "batch", "faults": [[(i % n) + 1, "abn"]]}, {"op": "enable", "i": i}])
+                        # StartChild for the dead child while the restart is waiting for a busy sibling
+                        for (i, j) in [(1, 2), (1, 3), (2, 3), (3, 1)]:
+                            for r in ("abn", "kill"):
+                                hists.append([{"op": "batchstart", "faults": [[i, r]], "i": j}, {"op": "batch", "faults": [[1, "abn"]]}])
                         # overlapping deaths: two children die before the supervisor handles the first
                         pairs = [(i, j) for i in range(1, n + 1) for j in range(1, n + 1) if i != j]
                         for (i, j) in pairs:
